@@ -70,9 +70,10 @@ Spell(c, q, style) ==
       code == Code(c)
   IN CASE style = "raw"   -> IF MustEscape(c, q) THEN named ELSE <<c>>
        [] style = "named" -> named
-       [] style = "hex"   -> IF code < 128 THEN <<BSL, "x">> \o Digits(code, 16, 2, FALSE) ELSE <<c>>
-       [] style = "HEX"   -> IF code < 128 THEN <<BSL, "x">> \o Digits(code, 16, 2, TRUE) ELSE <<c>>
-       [] style = "oct"   -> IF code < 128 THEN <<BSL>> \o Digits(code, 8, 3, FALSE) ELSE <<c>>
+       \* (\xHH and \ooo name the code point HH / ooo, also above 0x7F: the repository's tests pin "\xC3\xBF" = "Ã¿")
+       [] style = "hex"   -> IF code < 256 THEN <<BSL, "x">> \o Digits(code, 16, 2, FALSE) ELSE <<c>>
+       [] style = "HEX"   -> IF code < 256 THEN <<BSL, "x">> \o Digits(code, 16, 2, TRUE) ELSE <<c>>
+       [] style = "oct"   -> IF code < 256 THEN <<BSL>> \o Digits(code, 8, 3, FALSE) ELSE <<c>>
        [] style = "u4"    -> IF code < 65536 THEN <<BSL, "u">> \o Digits(code, 16, 4, FALSE)
                              ELSE <<BSL, "U">> \o Digits(code, 16, 8, TRUE)
        [] style = "U8"    -> <<BSL, "U">> \o Digits(code, 16, 8, FALSE)
